@@ -26,7 +26,6 @@ import "compress/gzip"
 import "encoding/json"
 import "io"
 import "os"
-import "strconv"
 import "strings"
 import "unsafe"
 /* -------------------------------------------------------------------------- */
@@ -522,6 +521,9 @@ func (m *DenseInt32Matrix) Import(filename string) error {
       continue
     }
     fields := strings.Fields(l)
+    if len(fields) == 0 {
+      continue
+    }
     if cols == 0 {
       cols = len(fields)
     }
@@ -529,11 +531,15 @@ func (m *DenseInt32Matrix) Import(filename string) error {
       return fmt.Errorf("invalid table")
     }
     for i := 0; i < len(fields); i++ {
-      value, err := strconv.ParseFloat(fields[i], 64)
+      vi, vf, isInt, err := parseTableEntry(fields[i])
       if err != nil {
         return fmt.Errorf("invalid table")
       }
-      values = append(values, int32(value))
+      if isInt {
+        values = append(values, int32(vi))
+      } else {
+        values = append(values, int32(vf))
+      }
     }
     rows++
   }
@@ -559,6 +565,9 @@ func (a *DenseInt32Matrix) UnmarshalJSON(data []byte) error {
   r := struct{Values []int32; Rows int; Cols int}{}
   if err := json.Unmarshal(data, &r); err != nil {
     return err
+  }
+  if r.Rows < 0 || r.Cols < 0 || len(r.Values) != r.Rows*r.Cols {
+    return fmt.Errorf("invalid dense matrix: number of values does not match dimension `%dx%d'", r.Rows, r.Cols)
   }
   a.values = r.Values
   a.rows = r.Rows
